@@ -49,9 +49,12 @@ theorem tx_lib (jid pass : Option Bytes) (cert : Bool) (flags : Nat) (ops : List
   intro r hr
   obtain ⟨hok, hsec, _⟩ := hi.q.tx_ok r hr
   by_cases ho : r.owner = .user
-  · have := (hok.1 ho).1
-    refine ⟨Or.inl this, fun hh => ?_⟩
-    obtain ⟨_, _, _, e⟩ := hh; rw [e] at this; cases this
+  · have hui : r.item.isUserItem = true := by
+      rcases (hok.1 ho).1 with a | ⟨n, i, a⟩
+      · exact a
+      · rw [a]; rfl
+    refine ⟨Or.inl hui, fun hh => ?_⟩
+    obtain ⟨_, _, _, e⟩ := hh; rw [e] at hui; cases hui
   · exact ⟨Or.inr (hok.2 ho), hsec ho⟩
 
 theorem requests_answer_offers (jid pass : Option Bytes) (cert : Bool) (flags : Nat) (ops : List Op)
